@@ -123,7 +123,7 @@ func c16WireRun(t *testing.T, c c06Case) (steps int, log string, out [][2]string
 func TestVerifC16Wire(t *testing.T) {
 	r := ev.Begin("C16", "wire")
 	defer r.End(t)
-	r.Rule = "histories = all sequences of <=K events over {solicitation from ::, unicast solicitation, link change (re-initialisation), transient failure of the next scheduled multicast RA} x gap {0.1, 2.9, 3.1, 6 s}, injected into the real Advertiser (min=max=4s; deprecated prefix valid 20s / preferred 10s, deprecated route 15s, epoch = start of the virtual clock; one non-deprecated prefix; and the ::/64 wildcard listed first, which expands to the deprecated stanza's /64 too) and followed by 8 quiet seconds; oracle on every RA handed to WriteTo: lifetimes = max(0, deadline - transmission time) exactly, never above the previous RA's, preferred<=valid, constants for the non-deprecated prefix; states = histories; non-trivial = history has >=1 event; distinct = distinct history"
+	r.Rule = "histories = all sequences of <=K events over {solicitation from ::, unicast solicitation, link change (re-initialisation), transient failure of the next scheduled multicast RA, IPv6 forwarding of the interface flips off/on} x gap {0.1, 2.9, 3.1, 6 s}, injected into the real Advertiser (min=max=4s; deprecated prefix valid 20s / preferred 10s, deprecated route 15s, epoch = start of the virtual clock; one non-deprecated prefix; and the ::/64 wildcard listed first, which expands to the deprecated stanza's /64 too) and followed by 8 quiet seconds; oracle on every RA handed to WriteTo: lifetimes = max(0, deadline - transmission time) exactly, never above the previous RA's, preferred<=valid, constants for the non-deprecated prefix; states = histories; non-trivial = history has >=1 event; distinct = distinct history"
 	r.Assumptions = []string{"canonical goroutine schedule per history", "random delay draws at their default (0) answer"}
 	if r.Replay != nil {
 		var c c06Case
@@ -144,7 +144,7 @@ func TestVerifC16Wire(t *testing.T) {
 		K = 4
 	}
 	gaps := []time.Duration{100 * time.Millisecond, 2900 * time.Millisecond, 3100 * time.Millisecond, 6 * time.Second}
-	n := 4 * len(gaps)
+	n := 5 * len(gaps)
 	idx := 0
 	enum.Sequences(n, K, func(seq []int) bool {
 		idx++
@@ -165,6 +165,8 @@ func TestVerifC16Wire(t *testing.T) {
 				e.Reinit = true
 			case 3:
 				e.WriteErr = true
+			case 4:
+				e.FwdFlip = true
 			}
 			c.Events = append(c.Events, e)
 		}
